@@ -278,6 +278,18 @@ func H_C12_compound() {
 	sa, sb := hBytesStr(1), hBytesStr(1)
 	ba, bb := nondetBool(), nondetBool()
 	il, io := NewList(a), NewObject("q", b)
+	// interface-typed flavours may hold a nil interface element: it is stored as the nil kind
+	var o0, o1 Object = io, io
+	var l0, l1 List = il, il
+	nilAt := 0
+	if fl == 1 || fl == 2 || fl == 8 || fl == 9 {
+		nilAt = nondetIntRange(0, 2)
+		if nilAt == 1 {
+			o0, l0 = nil, nil
+		} else if nilAt == 2 {
+			o1, l1 = nil, nil
+		}
+	}
 	var v any
 	var wantKinds [2]Type
 	isList := fl < 7
@@ -285,9 +297,9 @@ func H_C12_compound() {
 	case 0:
 		v, wantKinds = []any{a, sa}, [2]Type{TypeInt, TypeString}
 	case 1:
-		v, wantKinds = []Object{io, io}, [2]Type{TypeObject, TypeObject}
+		v, wantKinds = []Object{o0, o1}, [2]Type{TypeObject, TypeObject}
 	case 2:
-		v, wantKinds = []List{il, il}, [2]Type{TypeList, TypeList}
+		v, wantKinds = []List{l0, l1}, [2]Type{TypeList, TypeList}
 	case 3:
 		v, wantKinds = []string{sa, sb}, [2]Type{TypeString, TypeString}
 	case 4:
@@ -299,9 +311,9 @@ func H_C12_compound() {
 	case 7:
 		v, wantKinds = map[string]any{"x": a, "y": sa}, [2]Type{TypeInt, TypeString}
 	case 8:
-		v, wantKinds = map[string]Object{"x": io, "y": io}, [2]Type{TypeObject, TypeObject}
+		v, wantKinds = map[string]Object{"x": o0, "y": o1}, [2]Type{TypeObject, TypeObject}
 	case 9:
-		v, wantKinds = map[string]List{"x": il, "y": il}, [2]Type{TypeList, TypeList}
+		v, wantKinds = map[string]List{"x": l0, "y": l1}, [2]Type{TypeList, TypeList}
 	case 10:
 		v, wantKinds = map[string]string{"x": sa, "y": sb}, [2]Type{TypeString, TypeString}
 	case 11:
@@ -310,6 +322,9 @@ func H_C12_compound() {
 		v, wantKinds = map[string]int{"x": a, "y": b}, [2]Type{TypeInt, TypeInt}
 	default:
 		v, wantKinds = map[string]float64{"x": fa, "y": fb}, [2]Type{TypeFloat, TypeFloat}
+	}
+	if nilAt > 0 {
+		wantKinds[nilAt-1] = TypeNil
 	}
 	s := hStoreVia(e, v)
 	var got [2]mval
@@ -345,7 +360,103 @@ func H_C12_compound() {
 	default:
 		want = [2]mval{{kind: TypeFloat, f: fa}, {kind: TypeFloat, f: fb}}
 	}
+	if nilAt > 0 {
+		want[nilAt-1] = mval{kind: TypeNil}
+	}
 	verifAssert(verifAnd(hSameShallow(got[0], want[0]), hSameShallow(got[1], want[1])), "elements of a converted slice/map keep their values (containers by reference)")
+	verifReach("end")
+}
+
+// nil and empty slices/maps of every supported flavour become empty containers
+func H_C12_compound_empty() {
+	e := hEntry()
+	fl := nondetIntRange(0, 13)
+	isNil := nondetIntRange(0, 1) == 1
+	var v any
+	switch fl {
+	case 0:
+		v = []any{}
+		if isNil {
+			v = []any(nil)
+		}
+	case 1:
+		v = []Object{}
+		if isNil {
+			v = []Object(nil)
+		}
+	case 2:
+		v = []List{}
+		if isNil {
+			v = []List(nil)
+		}
+	case 3:
+		v = []string{}
+		if isNil {
+			v = []string(nil)
+		}
+	case 4:
+		v = []bool{}
+		if isNil {
+			v = []bool(nil)
+		}
+	case 5:
+		v = []int{}
+		if isNil {
+			v = []int(nil)
+		}
+	case 6:
+		v = []float64{}
+		if isNil {
+			v = []float64(nil)
+		}
+	case 7:
+		v = map[string]any{}
+		if isNil {
+			v = map[string]any(nil)
+		}
+	case 8:
+		v = map[string]Object{}
+		if isNil {
+			v = map[string]Object(nil)
+		}
+	case 9:
+		v = map[string]List{}
+		if isNil {
+			v = map[string]List(nil)
+		}
+	case 10:
+		v = map[string]string{}
+		if isNil {
+			v = map[string]string(nil)
+		}
+	case 11:
+		v = map[string]bool{}
+		if isNil {
+			v = map[string]bool(nil)
+		}
+	case 12:
+		v = map[string]int{}
+		if isNil {
+			v = map[string]int(nil)
+		}
+	default:
+		v = map[string]float64{}
+		if isNil {
+			v = map[string]float64(nil)
+		}
+	}
+	s := hStoreVia(e, v)
+	if fl < 7 {
+		hCheckKind(s, TypeList)
+		c := s.get().(List)
+		verifAssert(c.Count() == 0 && c.Empty(), "an empty or nil Go slice becomes an empty List")
+		verifAssert(c.String() == "[]", "an empty or nil Go slice becomes an empty List")
+	} else {
+		hCheckKind(s, TypeObject)
+		c := s.get().(Object)
+		verifAssert(c.Count() == 0 && c.Empty(), "an empty or nil Go map becomes an empty Object")
+		verifAssert(c.String() == "{}", "an empty or nil Go map becomes an empty Object")
+	}
 	verifReach("end")
 }
 
